@@ -196,8 +196,11 @@ def k_args(run, case):
                 guarded(run, case, fname, {"traj": A}, lambda: plot.traj(ax, mode, A, plot_start_end_markers=True))
             elif fname == "plot.traj_colormap":
                 ax = plot.prepare_axis(fig, mode)
+                lo, hi = float(err.min()), float(err.max())
+                if rng.random() < .6:  # limits inside the value range (values saturate in the plot)
+                    lo, hi = lo + rng.uniform(0, .4) * (hi - lo), hi - rng.uniform(0, .4) * (hi - lo)
                 guarded(run, case, fname, {"traj": A, "array": err},
-                        lambda: plot.traj_colormap(ax, A, err, mode, float(err.min()), float(err.max()), fig=fig))
+                        lambda: plot.traj_colormap(ax, A, err, mode, lo, hi, fig=fig))
             elif fname == "plot.draw_coordinate_axes":
                 ax = plot.prepare_axis(fig, mode)
                 guarded(run, case, fname, {"traj": A}, lambda: plot.draw_coordinate_axes(ax, A, mode, 0.3))
